@@ -68,6 +68,19 @@ class MarkovCheck(object):
                 if c['tmax'] != 'inf' and c['tmax'] != 0:
                     c['tmax'] = c['tmin'] + (c['tmax'] - c['tmin']) / sc
                 c['rate_scale'] = sc
+            elif r.random() < 0.2 and c.get('wm', 'none') != 'none':
+                # the same process written in other units: weights of order 1e-12 (or 1e11) with tau / gamma scaled the other way
+                g = dict(c['graph'])
+                if g.get('ew'):
+                    f = r.choice([1e-13, 1e-12, 1e11])
+                    g['ew'] = {a: [w * f for w in ws] for a, ws in g['ew'].items()}
+                    c['tau'] = c['tau'] / f
+                if g.get('nw'):
+                    f = r.choice([1e-13, 1e-12, 1e11])
+                    g['nw'] = {a: [w * f for w in ws] for a, ws in g['nw'].items()}
+                    c['gamma'] = c['gamma'] / f
+                c['graph'] = g
+                c['weight_units_scaled'] = True
             cases.append(c)
         # --- e3: exhaustive small graphs
         nmax = 4 if q else 5
@@ -287,6 +300,8 @@ class MarkovCheck(object):
             setmax(res, 'e2_max_steps_in_one_call', nsteps or 0)
         if px.n_opaque:
             bump(res, 'opaque_probe_uses', px.n_opaque)
+        if case.get('weight_units_scaled') and nsteps:
+            bump(res, 'e2_runs_with_weights_in_other_units')
         for pred, det in fails:
             viol(res, '%s|%s|%s' % (simname, wm, pred), det)
         if nsteps:
